@@ -1,2 +1,784 @@
-// Package c10 decides C10 (see DESIGN.md section 4). Not built yet.
+// Package c10 decides C10 (packages are linked and initialised in Go order;
+// linknames resolve).
+//
+// spec/Init.tla is the reference: the Go rules of package initialisation as a
+// functional definition (VarOrder, PkgSeq, TopoOrders, RefTrace) and as a state
+// machine (one action per step, a suspended initialiser suspends everything
+// behind it), and the documented go:linkname directive (a call of the reference
+// is a call of the implementation it names; three unsupported uses are rejected).
+// spec/InitScen.tla enumerates the families of programs (import DAGs, variable
+// dependency shapes, init functions per file, the linkname table, the rejected
+// forms) and decodes VERIF_SEED digit strings into programs over the full
+// bounds; TLC checks the definitions against each other on every program and
+// writes the program with its allowed marker traces for both file orders.
+// This package renders each program as a Go module, builds it with the compiler
+// under test, runs it under Node and natively (guard), decides the recorded
+// trace by membership in the allowed set AND by trace validation with TLC
+// (spec/InitTrace.tla; both must agree), and finally requires that ONE file
+// order explains every program of the run.
 package c10
+
+import (
+	"encoding/json"
+	"fmt"
+	"math/rand"
+	"os"
+	"path/filepath"
+	"regexp"
+	"sort"
+	"strings"
+	"sync"
+	"time"
+
+	"verif/core"
+	"verif/gjs"
+	"verif/reg"
+	"verif/tlcx"
+)
+
+func init() { reg.Register("C10", "model_checking", Run) }
+
+const cfgScen = "SPECIFICATION Spec\nINVARIANTS ScenOK FamiliesWF MachOK Emit\nCHECK_DEADLOCK FALSE\n"
+const cfgTrace = "SPECIFICATION TSpec\nINVARIANTS TInv Report\nCHECK_DEADLOCK FALSE\n"
+
+const tlcWorkers = 8
+
+const f13Key = "exported_bodyless_linkname_func_not_exported"
+
+type bounds struct {
+	MaxPk int `json:"maxPk"`
+	Slots int `json:"slots"`
+}
+
+type tlaParams struct {
+	Out   string   `json:"out"`
+	Fams  []string `json:"fams"`
+	NPool int      `json:"npool"`
+	Pairs [][2]int `json:"pairs"`
+	One   int      `json:"one"`
+	Bnd   bounds   `json:"bnd"`
+	Codes [][]int  `json:"codes"`
+	Given []Scen   `json:"given"`
+}
+
+func decodeLine(raw json.RawMessage, into any) error {
+	if len(raw) > 0 && raw[0] == '"' {
+		var inner string
+		if err := json.Unmarshal(raw, &inner); err != nil {
+			return err
+		}
+		return json.Unmarshal([]byte(inner), into)
+	}
+	return json.Unmarshal(raw, into)
+}
+
+// runModel runs InitScen and returns the scenario records (sorted by sid).
+func runModel(c *core.Ctx, p tlaParams, timeout time.Duration) ([]*Rec, *tlcx.Result, error) {
+	p.Out = "scen"
+	p.NPool = len(NamePool)
+	p.Pairs = NamePairs
+	p.One = OneFile
+	if p.Codes == nil {
+		p.Codes = [][]int{}
+	}
+	if p.Given == nil {
+		p.Given = []Scen{}
+	}
+	pj, _ := json.Marshal(p)
+	r, err := tlcx.Run(c, tlcx.Opts{Module: "InitScen", Cfg: cfgScen, Workers: tlcWorkers, Timeout: timeout,
+		Files: map[string]string{"c10_params.json": string(pj)}, HeapMB: 6144})
+	if err != nil {
+		return nil, r, err
+	}
+	if !r.Completed {
+		return nil, r, nil
+	}
+	files, _ := filepath.Glob(filepath.Join(r.Dir, "scen.*.ndjson"))
+	var recs []*Rec
+	for _, f := range files {
+		err := tlcx.ReadNDJSON(f, func(raw json.RawMessage) error {
+			rec := &Rec{}
+			if err := decodeLine(raw, rec); err != nil {
+				return err
+			}
+			recs = append(recs, rec)
+			return nil
+		})
+		if err != nil {
+			return nil, r, fmt.Errorf("decode %s: %v", f, err)
+		}
+	}
+	sort.Slice(recs, func(i, j int) bool { return recs[i].Sid < recs[j].Sid })
+	// the terminal states of the machine are exactly the cross-package orders of
+	// the functional definition, for both file orders
+	term := map[string]map[string]bool{}
+	tf := filepath.Join(r.Dir, "term.ndjson")
+	if _, e := os.Stat(tf); e == nil {
+		err := tlcx.ReadNDJSON(tf, func(raw json.RawMessage) error {
+			var t []json.RawMessage
+			if err := decodeLine(raw, &t); err != nil {
+				return err
+			}
+			if len(t) != 3 {
+				return fmt.Errorf("term line with %d fields", len(t))
+			}
+			var sid int
+			var fo string
+			json.Unmarshal(t[0], &sid)
+			json.Unmarshal(t[1], &fo)
+			k := fmt.Sprintf("%d/%s", sid, fo)
+			if term[k] == nil {
+				term[k] = map[string]bool{}
+			}
+			term[k][string(t[2])] = true
+			return nil
+		})
+		if err != nil {
+			return nil, r, fmt.Errorf("decode %s: %v", tf, err)
+		}
+	}
+	for _, rec := range recs {
+		if !rec.Wf || rec.Rejected {
+			continue
+		}
+		if len(rec.Orders) == 0 || len(rec.Asc) != len(rec.Orders) || len(rec.Desc) != len(rec.Orders) {
+			return nil, r, fmt.Errorf("scenario %d: %d orders, %d/%d traces", rec.Sid, len(rec.Orders), len(rec.Asc), len(rec.Desc))
+		}
+		for _, fo := range []string{"asc", "desc"} {
+			got := term[fmt.Sprintf("%d/%s", rec.Sid, fo)]
+			want := map[string]bool{}
+			for _, o := range rec.Orders {
+				b, _ := json.Marshal(o)
+				want[string(b)] = true
+			}
+			if len(got) != len(want) {
+				return nil, r, fmt.Errorf("scenario %d (%s): the machine terminates with %d cross-package orders, the definition has %d", rec.Sid, fo, len(got), len(want))
+			}
+			for k := range want {
+				if !got[k] {
+					return nil, r, fmt.Errorf("scenario %d (%s): order %s of the definition is not reached by the machine", rec.Sid, fo, k)
+				}
+			}
+		}
+	}
+	return recs, r, nil
+}
+
+// outcome of one program.
+type outcome struct {
+	rec   *Rec
+	prog  gjs.Prog
+	both  gjs.Both
+	jsEv  []Event
+	jsOK  bool // ended normally and every line is a marker
+	natEv []Event
+	natOK bool
+	// decided by membership
+	jsFO, natFO map[string]bool
+	// index into the InitTrace batch (-1: not validated)
+	jsK, natK int
+	guard     string // ok | discard | none
+	skip      bool   // not decided (discarded / infrastructure)
+}
+
+func parseObs(o gjs.Obs) ([]Event, bool) {
+	evs := make([]Event, 0, len(o.Lines))
+	ok := o.End == "exit"
+	for _, l := range o.Lines {
+		e, good := parseLine(l)
+		if !good {
+			ok = false
+			e = Event{Tag: "?", ID: 0, A: 0}
+		}
+		evs = append(evs, e)
+	}
+	return evs, ok
+}
+
+func sameEvents(a, b []Event) bool {
+	if len(a) != len(b) {
+		return false
+	}
+	for i := range a {
+		if a[i] != b[i] {
+			return false
+		}
+	}
+	return true
+}
+
+func member(rec *Rec, evs []Event) map[string]bool {
+	m := map[string]bool{}
+	for _, fo := range []string{"asc", "desc"} {
+		for _, t := range rec.allowed(fo) {
+			if sameEvents(t, evs) {
+				m[fo] = true
+				break
+			}
+		}
+	}
+	return m
+}
+
+// closest returns the allowed trace with the longest common prefix with evs
+// (preferring the file order pref) and that length.
+func closest(rec *Rec, evs []Event, pref string) ([]Event, int, string) {
+	var best []Event
+	bl, bfo := -1, ""
+	fos := []string{pref, "asc", "desc"}
+	for _, fo := range fos {
+		for _, t := range rec.allowed(fo) {
+			n := 0
+			for n < len(t) && n < len(evs) && t[n] == evs[n] {
+				n++
+			}
+			if n > bl {
+				best, bl, bfo = t, n, fo
+			}
+		}
+	}
+	return best, bl, bfo
+}
+
+var reNotFunc = regexp.MustCompile(`\.(L\d+) is not a function`)
+
+// classify returns the known-finding keys a rejected observation satisfies.
+func classify(rec *Rec, o gjs.Obs, evs []Event) []string {
+	var keys []string
+	if o.End == "jserror" {
+		if m := reNotFunc.FindStringSubmatch(o.Msg); m != nil {
+			// F13: an EXPORTED body-less linknamed function called from another package, and
+			// everything printed before the failure is a prefix of an allowed trace
+			s := &rec.Scen
+			r := renderNames(s)
+			hit := false
+			for _, d := range s.Decls {
+				for _, ref := range d.Refs {
+					t := s.Decls[ref.D-1]
+					if t.Kind == "lref" && t.Ex && t.Pk != d.Pk && r.lrefName(ref.D) == m[1] {
+						hit = true
+					}
+				}
+			}
+			_, n, _ := closest(rec, evs, "desc")
+			if hit && n == len(evs) {
+				keys = append(keys, f13Key)
+			}
+		}
+	}
+	return keys
+}
+
+func renderNames(s *Scen) *rend {
+	n := len(s.Decls)
+	r := &rend{s: s, vnum: make([]int, n), fnum: make([]int, n), lnum: make([]int, n), trip: map[int]bool{}, mk: map[int]bool{}}
+	cnt := map[[2]int]int{}
+	for i, d := range s.Decls {
+		if d.Kind == "lref" {
+			cnt[[2]int{d.Pk, 2}]++
+			r.lnum[i] = cnt[[2]int{d.Pk, 2}]
+		}
+	}
+	return r
+}
+
+type checker struct {
+	c    *core.Ctx
+	pool *gjs.Pool
+	mu   sync.Mutex
+}
+
+func (ck *checker) report(o *outcome, keys []string, summary string, want []Event, extra map[string]string) {
+	files := o.prog.ReplayFiles("prog")
+	if want != nil {
+		files["predicted.txt"] = strings.Join(linesOf(want), "\n") + "\nend=exit\n"
+	}
+	sj, _ := json.MarshalIndent(o.rec.Scen, "", " ")
+	files["scenario.json"] = string(sj) + "\n"
+	files["observed.txt"] = strings.Join(o.both.JS.Lines, "\n") + "\nend=" + o.both.JS.End + " " + o.both.JS.Msg + "\n"
+	for k, v := range extra {
+		files[k] = v
+	}
+	ck.c.Report(core.Case{Keys: keys, Summary: summary, Files: files})
+}
+
+// execute builds and runs one program.
+func (ck *checker) execute(rec *Rec) *outcome {
+	o := &outcome{rec: rec, jsK: -1, natK: -1}
+	o.prog = Render(&rec.Scen)
+	native := !rec.Rejected
+	o.both = ck.pool.RunBoth(ck.c.Scratch, o.prog, gjs.Opts{}, 2*time.Minute, native, false)
+	if o.both.BuildErr == nil {
+		o.jsEv, o.jsOK = parseObs(o.both.JS)
+	}
+	if native && o.both.NativeErr == "" {
+		o.natEv, o.natOK = parseObs(o.both.Native)
+	}
+	return o
+}
+
+func firstLineOf(s string) string {
+	s = strings.TrimSpace(s)
+	if i := strings.Index(s, "\n\nOriginal stack"); i >= 0 {
+		s = s[:i]
+	}
+	s = strings.ReplaceAll(s, "\n", " ")
+	if len(s) > 300 {
+		s = s[:300]
+	}
+	return s
+}
+
+func tail(s string, n int) string {
+	if len(s) > n {
+		return s[len(s)-n:]
+	}
+	return s
+}
+
+// validate runs InitTrace over the recorded traces and returns, per trace, the
+// file orders under which TLC accepts it.
+func validate(c *core.Ctx, scens []*Scen, traces [][]Event) ([]map[string]bool, error) {
+	acc := make([]map[string]bool, len(traces))
+	for i := range acc {
+		acc[i] = map[string]bool{}
+	}
+	const chunk = 1200
+	for lo := 0; lo < len(traces); lo += chunk {
+		hi := lo + chunk
+		if hi > len(traces) {
+			hi = len(traces)
+		}
+		type tr struct {
+			Scen  *Scen   `json:"scen"`
+			Lines []Event `json:"lines"`
+		}
+		batch := make([]tr, 0, hi-lo)
+		for i := lo; i < hi; i++ {
+			l := traces[i]
+			if l == nil {
+				l = []Event{}
+			}
+			batch = append(batch, tr{scens[i], l})
+		}
+		bj, _ := json.Marshal(batch)
+		r, err := tlcx.Run(c, tlcx.Opts{Module: "InitTrace", Cfg: cfgTrace, Workers: tlcWorkers, Timeout: 20 * time.Minute,
+			Files: map[string]string{"c10_traces.json": string(bj)}, HeapMB: 6144})
+		if err != nil {
+			return nil, err
+		}
+		if !r.Completed {
+			return nil, fmt.Errorf("InitTrace: TLC did not complete (violated=%q timeout=%v)\n%s", r.Violated, r.TimedOut, tlcx.Tail(r.Output, 40))
+		}
+		af := filepath.Join(r.Dir, "accepted.ndjson")
+		if _, e := os.Stat(af); e == nil {
+			err := tlcx.ReadNDJSON(af, func(raw json.RawMessage) error {
+				var t []json.RawMessage
+				if err := decodeLine(raw, &t); err != nil {
+					return err
+				}
+				var k int
+				var fo string
+				json.Unmarshal(t[0], &k)
+				json.Unmarshal(t[1], &fo)
+				if k < 1 || lo+k-1 >= hi {
+					return fmt.Errorf("accepted line for unknown trace %d", k)
+				}
+				acc[lo+k-1][fo] = true
+				return nil
+			})
+			if err != nil {
+				return nil, err
+			}
+		}
+		os.RemoveAll(r.Dir)
+	}
+	return acc, nil
+}
+
+func foSet(m map[string]bool) string {
+	var l []string
+	for k, v := range m {
+		if v {
+			l = append(l, k)
+		}
+	}
+	sort.Strings(l)
+	return strings.Join(l, ",")
+}
+
+func pickN(rng *rand.Rand, recs []*Rec, n int) []*Rec {
+	if n >= len(recs) {
+		return recs
+	}
+	idx := rng.Perm(len(recs))[:n]
+	sort.Ints(idx)
+	out := make([]*Rec, 0, n)
+	for _, i := range idx {
+		out = append(out, recs[i])
+	}
+	return out
+}
+
+// Run is the C10 check.
+func Run(c *core.Ctx, pool *gjs.Pool) {
+	if !sort.StringsAreSorted(NamePool) {
+		c.Infra(fmt.Errorf("NamePool must be ascending bytewise"))
+		return
+	}
+	for _, p := range NamePairs {
+		if !(p[0] < p[1]) {
+			c.Infra(fmt.Errorf("NamePairs must be ascending"))
+			return
+		}
+	}
+	c.Assumef("file order is a parameter of the specification with the values ascending and descending by bytewise name (spec/Init.tla FileOrders); one value must explain every package of every program of the run")
+	c.Assumef("programs observe themselves with println markers <tag, declaration, sum of the values of the references>; suspension is runtime.Gosched, a channel round trip through a goroutine started by the call, or a round trip through a server goroutine started earlier (package vp/rt, outside the modelled import DAG: it prints nothing when initialised)")
+	c.Assumef("an implementation named by a linkname does not read package variables (reading a variable of a package that is not initialised yet is outside the property); linkname targets are never in package main")
+	c.Assumef("linkname programs: the reference toolchain accepts pull-style linknames between user packages; where it builds the program it is used as guard (disagreement with the specification discards the scenario), otherwise the scenario is decided by the documented behaviour only; the three rejected forms have no guard")
+	c.Assumef("the reference toolchain presents files in ascending name order (guard traces must be accepted with file order asc)")
+	rng := rand.New(rand.NewSource(c.Seed))
+
+	if rd := os.Getenv("VERIF_REPLAY"); rd != "" {
+		replay(c, pool, rd)
+		return
+	}
+
+	// 1. the model: enumerate, check the definitions, emit predictions
+	ncodes := c.Pick(140, 2600)
+	if v := os.Getenv("C10_N"); v != "" { // development aid
+		fmt.Sscanf(v, "%d", &ncodes)
+	}
+	codes := make([][]int, ncodes)
+	for i := range codes {
+		codes[i] = make([]int, 251)
+		for j := range codes[i] {
+			codes[i][j] = rng.Intn(10000)
+		}
+	}
+	p := tlaParams{Fams: []string{"dag", "vars", "inits", "link", "bad", "code"}, Bnd: bounds{MaxPk: 4, Slots: 5}, Codes: codes}
+	recs, res, err := runModel(c, p, time.Duration(c.Pick(15, 40))*time.Minute)
+	if err != nil {
+		c.Infra(fmt.Errorf("InitScen: %v", err))
+		return
+	}
+	if !tlcx.MustComplete(c, res, nil, "InitScen") {
+		return
+	}
+	c.Phase("tlc_scen")
+	c.Set("checker_cmd", "tlc InitScen (INVARIANTS ScenOK FamiliesWF MachOK Emit): every program of the families and every decoded program, both file orders, every cross-package order; tlc InitTrace (INVARIANTS TInv Report) on the recorded traces")
+	byFam := map[string][]*Rec{}
+	illFormed := 0
+	sens := 0
+	for _, r := range recs {
+		if !r.Wf {
+			illFormed++
+			continue
+		}
+		byFam[r.Fam] = append(byFam[r.Fam], r)
+		if !r.Rejected && r.sensitive() {
+			sens++
+		}
+	}
+	fams := map[string]int{}
+	for f, l := range byFam {
+		fams[f] = len(l)
+	}
+	c.Set("model_programs_per_family", fams)
+	c.Set("model_programs_sensitive_to_file_order", sens)
+	c.Set("decoded_programs_ill_formed", illFormed)
+	c.Set("exhaustive", true)
+
+	// 2. which programs are built (families completely in the thorough tier, a
+	// VERIF_SEED sample of the large ones in the quick tier)
+	var sel []*Rec
+	var link, bad []*Rec
+	for _, r := range byFam["link"] {
+		if r.Rejected {
+			bad = append(bad, r)
+		} else {
+			link = append(link, r)
+		}
+	}
+	sel = append(sel, byFam["dag"]...)
+	sel = append(sel, pickN(rng, byFam["inits"], c.Pick(30, 1000))...)
+	sel = append(sel, pickN(rng, link, c.Pick(30, 1000))...)
+	sel = append(sel, bad...)
+	sel = append(sel, pickN(rng, byFam["vars"], c.Pick(80, 100000))...)
+	sel = append(sel, byFam["code"]...)
+	// the shape of DESIGN.md F13 is always present: exported reference to a function,
+	// called from a third package
+	have := false
+	for _, r := range sel {
+		if r.Fam == "link" && strings.Contains(string(r.Key), `"tk":"func"`) && strings.Contains(string(r.Key), `"rex":true`) && !r.Rejected {
+			have = true
+		}
+	}
+	if !have {
+		for _, r := range link {
+			if strings.Contains(string(r.Key), `"tk":"func"`) && strings.Contains(string(r.Key), `"rex":true`) {
+				sel = append(sel, r)
+				break
+			}
+		}
+	}
+	seen := map[string]bool{}
+	var uniq []*Rec
+	for _, r := range sel {
+		k := r.Scen.key()
+		if !seen[k] {
+			seen[k] = true
+			uniq = append(uniq, r)
+		}
+	}
+	c.Set("programs", len(uniq))
+	decide(c, pool, uniq)
+	c.Set("rule", "TLC enumerates completely: every import DAG of <= 4 packages x suspending deepest initialiser (dag), every placement of 3 variables in 2 files x every acyclic none/direct/through-function dependency per ordered pair x which variable has no initialiser (vars), every pair of file names x 0..2 init functions per file in 2 packages (inits), the linkname table target kind x receiver kind x exported reference x exported implementation x import direction x suspending implementation (link), the 3 rejected forms x direction x exported (bad); programs over the full bounds (<= 4 packages, <= 2 files, <= 3 vars + 1 var without initialiser + 3 funcs/methods + 1 linkname per package, <= 2 init per file, references, suspension points) are decoded from VERIF_SEED digit strings (code). All are model-checked (both file orders, all cross-package orders); dag, bad and code programs are all built and run, the other families completely in the thorough tier and as a VERIF_SEED sample in the quick tier. A case is one program compiled, run and compared; distinct = distinct programs; every one is non-trivial (at least a var, an init and main.main across >= 1 package). exhaustive refers to the enumerated families inside TLC")
+}
+
+// decide executes the programs and reports.
+func decide(c *core.Ctx, pool *gjs.Pool, recs []*Rec) {
+	ck := &checker{c: c, pool: pool}
+	outs := make([]*outcome, len(recs))
+	c.ParMap(len(recs), func(i int) { outs[i] = ck.execute(recs[i]) })
+	c.Phase("build_run")
+
+	// trace validation batch: every complete JS trace and every complete guard trace
+	var tscens []*Scen
+	var traces [][]Event
+	for _, o := range outs {
+		if o.rec.Rejected {
+			continue
+		}
+		if o.both.BuildErr == nil && o.jsOK {
+			o.jsK = len(traces)
+			tscens = append(tscens, &o.rec.Scen)
+			traces = append(traces, o.jsEv)
+		}
+		if o.both.NativeErr == "" && o.natOK {
+			if o.jsK >= 0 && sameEvents(o.jsEv, o.natEv) {
+				o.natK = o.jsK
+			} else {
+				o.natK = len(traces)
+				tscens = append(tscens, &o.rec.Scen)
+				traces = append(traces, o.natEv)
+			}
+		}
+	}
+	acc, err := validate(c, tscens, traces)
+	if err != nil {
+		c.Infra(err)
+		return
+	}
+	c.Phase("tlc_trace")
+	for _, o := range outs {
+		if o.jsK >= 0 {
+			o.jsFO = member(o.rec, o.jsEv)
+			if foSet(o.jsFO) != foSet(acc[o.jsK]) {
+				c.Infra(fmt.Errorf("specification inconsistent: scenario %d: the JS trace is in the allowed sets of {%s} but InitTrace accepts it for {%s}", o.rec.Sid, foSet(o.jsFO), foSet(acc[o.jsK])))
+				return
+			}
+		}
+		if o.natK >= 0 {
+			o.natFO = member(o.rec, o.natEv)
+			if foSet(o.natFO) != foSet(acc[o.natK]) {
+				c.Infra(fmt.Errorf("specification inconsistent: scenario %d: the guard trace is in the allowed sets of {%s} but InitTrace accepts it for {%s}", o.rec.Sid, foSet(o.natFO), foSet(acc[o.natK])))
+				return
+			}
+		}
+	}
+	c.Set("traces_validated_against_impl", func() int {
+		n := 0
+		for _, o := range outs {
+			if o.jsK >= 0 {
+				n++
+			}
+		}
+		return n
+	}())
+	c.Set("guard_traces_validated", func() int {
+		n := 0
+		for _, o := range outs {
+			if o.natK >= 0 {
+				n++
+			}
+		}
+		return n
+	}())
+
+	feat := map[string]int{}
+	famRun := map[string]int{}
+	discards, unguarded, linkGuarded, evals, sensRun := 0, 0, 0, 0, 0
+	var needAsc, needDesc *outcome
+	both := 0
+	for _, o := range outs {
+		rec := o.rec
+		if be := o.both.BuildErr; be != nil {
+			if _, ok := be.(*gjs.BuildError); !ok {
+				c.Infra(fmt.Errorf("gopherjs build (infrastructure): %v", be))
+				return
+			}
+		}
+		// --- rejected forms: decided by the documented behaviour only
+		if rec.Rejected {
+			evals++
+			famRun["bad"]++
+			c.Distinct(rec.Scen.key())
+			for k := range rec.Scen.features() {
+				feat[k]++
+			}
+			badKind := ""
+			for _, d := range rec.Scen.Decls {
+				if d.Kind == "lref" {
+					badKind = d.Bad
+				}
+			}
+			be, _ := o.both.BuildErr.(*gjs.BuildError)
+			switch {
+			case be == nil:
+				ck.report(o, []string{"unsupported_linkname_accepted:" + badKind},
+					fmt.Sprintf("unsupported use of go:linkname (%s) is not rejected at build time; the program ran: %s end=%s %s", badKind, strings.Join(o.both.JS.Lines, " | "), o.both.JS.End, o.both.JS.Msg),
+					nil, map[string]string{"expected.txt": "build error mentioning go:linkname\n"})
+			case be.Panic:
+				ck.report(o, []string{"compiler_panic"}, "compiler internal error on an unsupported use of go:linkname ("+badKind+"): "+firstLineOf(be.Error()), nil, map[string]string{"expected.txt": "build error mentioning go:linkname\n"})
+			case !strings.Contains(be.Error(), "go:linkname"):
+				ck.report(o, []string{"unsupported_linkname_other_error:" + badKind}, "the build fails, but not with a diagnostic about the go:linkname directive ("+badKind+"): "+firstLineOf(be.Error()), nil, map[string]string{"expected.txt": "build error mentioning go:linkname\n"})
+			}
+			continue
+		}
+		// --- guard
+		isLink := rec.Scen.hasLink()
+		switch {
+		case o.both.NativeErr != "":
+			if isLink {
+				o.guard = "none"
+				unguarded++
+			} else {
+				o.guard = "discard"
+				c.Sample(map[string]any{"discarded": rec.Sid, "fam": rec.Fam, "native_error": tail(o.both.NativeErr, 400)})
+			}
+		case o.natOK && o.natFO["asc"]:
+			o.guard = "ok"
+			if isLink {
+				linkGuarded++
+			}
+		default:
+			o.guard = "discard"
+			want, n, _ := closest(rec, o.natEv, "asc")
+			c.Sample(map[string]any{"discarded": rec.Sid, "fam": rec.Fam, "native_end": o.both.Native.End, "native_lines": o.both.Native.Lines, "agrees_up_to": n, "predicted": linesOf(want)})
+		}
+		if o.guard == "discard" {
+			discards++
+			continue
+		}
+		evals++
+		famRun[rec.Fam]++
+		c.Distinct(rec.Scen.key())
+		for k := range rec.Scen.features() {
+			feat[k]++
+		}
+		if rec.sensitive() {
+			sensRun++
+		}
+		// --- the compiler under test
+		if be, _ := o.both.BuildErr.(*gjs.BuildError); be != nil {
+			key := "compile_fail"
+			if be.Panic {
+				key = "compiler_panic"
+			}
+			want, _, _ := closest(rec, nil, "desc")
+			ck.report(o, []string{key}, "the compiler fails on a legal program (the reference toolchain builds and runs it as predicted): "+firstLineOf(be.Error()), want, nil)
+			continue
+		}
+		if o.jsK >= 0 && len(o.jsFO) > 0 {
+			switch {
+			case o.jsFO["asc"] && o.jsFO["desc"]:
+				both++
+			case o.jsFO["asc"]:
+				if needAsc == nil {
+					needAsc = o
+				}
+			default:
+				if needDesc == nil {
+					needDesc = o
+				}
+			}
+			continue
+		}
+		want, n, fo := closest(rec, o.jsEv, "desc")
+		got, exp := "<end>", "<end>"
+		if n < len(o.jsEv) {
+			got = o.both.JS.Lines[n]
+		} else if o.both.JS.End != "exit" {
+			got = o.both.JS.End + " " + o.both.JS.Msg
+		}
+		if n < len(want) {
+			exp = want[n].Line()
+		}
+		ck.report(o, classify(rec, o.both.JS, o.jsEv),
+			fmt.Sprintf("%s program %d: the marker trace is accepted under no file order; it agrees with the closest allowed trace (file order %s) for %d markers, then prints %q where %q is predicted (end=%s %s)",
+				rec.Fam, rec.Sid, fo, n, got, exp, o.both.JS.End, o.both.JS.Msg), want, nil)
+	}
+	// --- one file order must explain the whole run
+	explain := []string{}
+	switch {
+	case needAsc != nil && needDesc != nil:
+		want, _, _ := closest(needAsc.rec, needAsc.jsEv, "desc")
+		extra := needDesc.prog.ReplayFiles("prog_needing_desc")
+		ck.report(needAsc, []string{"no_single_file_order"},
+			fmt.Sprintf("no single file order explains the run: program %d is only explained by ascending file names, program %d only by descending ones", needAsc.rec.Sid, needDesc.rec.Sid),
+			want, extra)
+	case needAsc != nil:
+		explain = []string{"asc"}
+	case needDesc != nil:
+		explain = []string{"desc"}
+	default:
+		explain = []string{"asc", "desc"}
+	}
+	c.Set("file_orders_explaining_the_run", explain)
+	c.Set("programs_accepted_under_both_file_orders", both)
+	c.Set("programs_run_sensitive_to_file_order", sensRun)
+	c.Set("evaluations", evals)
+	c.Set("programs_run_per_family", famRun)
+	c.Set("spec_guard_discards", discards)
+	c.Set("linkname_programs_guarded_by_reference_toolchain", linkGuarded)
+	c.Set("linkname_programs_without_guard", unguarded)
+	c.Set("features", feat)
+	if discards > 0 {
+		fmt.Printf("note: %d programs discarded because the reference toolchain disagrees with the specification\n", discards)
+	}
+	n := 0
+	for i, o := range outs {
+		if i%(len(outs)/4+1) == 0 && n < 4 {
+			n++
+			c.Sample(map[string]any{"fam": o.rec.Fam, "sid": o.rec.Sid, "packages": o.rec.Scen.Np, "decls": len(o.rec.Scen.Decls), "orders": len(o.rec.Orders),
+				"observed": o.both.JS.Lines, "accepted_under": foSet(o.jsFO), "guard": o.guard})
+		}
+	}
+}
+
+// replay re-decides one recorded scenario (scenario.json) through the model and
+// the compiler.
+func replay(c *core.Ctx, pool *gjs.Pool, dir string) {
+	b, err := os.ReadFile(filepath.Join(dir, "scenario.json"))
+	if err != nil {
+		c.Infra(err)
+		return
+	}
+	var s Scen
+	if err := json.Unmarshal(b, &s); err != nil {
+		c.Infra(err)
+		return
+	}
+	recs, res, err := runModel(c, tlaParams{Fams: []string{"given"}, Bnd: bounds{MaxPk: 4, Slots: 5}, Given: []Scen{s}}, 10*time.Minute)
+	if err != nil {
+		c.Infra(err)
+		return
+	}
+	if !tlcx.MustComplete(c, res, nil, "InitScen (replay)") {
+		return
+	}
+	c.Set("programs", len(recs))
+	decide(c, pool, recs)
+	c.Set("rule", "replay of one recorded scenario")
+}
